@@ -79,33 +79,54 @@ CLAIMED = {
         note='as C04; additionally Gen/Orderings translator (fail-closed on any change in the number or shape of atomic call sites)',
         ref='DESIGN.md §7 C05, §5.4'),
     'C10': dict(
-        technique='Lean 4 proof over the model of reason_shortest_path_between_causes + proved Floyd–Warshall oracle '
-                  '(fw_correct, tabulated form proved equal) validating the path astar returned + differential correspondence run',
+        technique='Lean 4 proof over the model of reason_shortest_path_between_causes, which is proved equal to the definition '
+                  'the fail-closed translator tools/rs2lean_reasoning.py regenerates from the current Rust source on every run '
+                  '(Gen/Reasoning.lean, Props/C01Gen.lean: reason_shortest_path_eq, path_loop_eq, get_shortest_path_eq) + proved '
+                  'Floyd–Warshall oracle (fw_correct, tabulated form proved equal) validating the path astar returned + '
+                  'differential correspondence run',
         text='Theorems evaluated_eq_prefix / verdict_true_iff / verdict_first_nontrue / nothing_else_evaluated / errors_iff / '
              'spErr_iff / accepted_path_minimal / model_sp_spec: along the path returned by get_shortest_path exactly the prefix '
              'up to and including the first non-true causaloid is evaluated, in order, the result is the conjunction, nothing '
              'off the path is evaluated; an error without evaluation iff empty graph, absent endpoint, start = stop or stop '
              'unreachable; a path accepted by the driver is a real path of minimum weight among all walks (Floyd–Warshall, '
              'proved). Ties are the implementation\'s choice and are validated per case, not predicted.',
-        note='Trusted: Lean kernel, Model/CausalGraph.lean (correspondence-tied), harness/driver pair. petgraph astar is not '
+        note='Trusted: Lean kernel, rs2lean_reasoning.py and its vocabulary (see C01; `shortest_path(a, b)` of the underlying graph '
+             'is a parameter `sp a b` of the generated definition, so swapped arguments or a dropped start = stop guard change '
+             'the generated text; c10gen_evaluates_one_path / c10gen_error restate the laws on the generated definition), the '
+             'graph-store part of Model/CausalGraph.lean (correspondence-tied), harness/driver pair. petgraph astar is not '
              'translated: its answer is checked per query (real path, weight = proved distance), so minimality is established for '
              'every executed query, not for all inputs of astar.',
         ref='DESIGN.md §7 C10'),
     'C01': dict(
         technique='Lean 4 proof (stack-machine invariant by induction on fuel and stack; termination by a rank on acyclic '
-                  'graphs; add-only invariant by induction over the build history) over a hand-written line-by-line model of '
-                  'graph_reasoning.rs + differential correspondence run against the real CausaloidGraph',
+                  'graphs; add-only invariant by induction over the build history) over a model of graph_reasoning.rs that is '
+                  'proved equal, for all inputs, to definitions regenerated from the current Rust source on every run by the '
+                  'fail-closed translator tools/rs2lean_reasoning.py (forking symbolic execution -> Gen/Reasoning.lean; the '
+                  '`while let` stack loop as a fuel-indexed recursive definition whose transitions are derived from the parsed '
+                  'statements; Props/C01Gen.lean: generated = model) + differential correspondence run against the real '
+                  'CausaloidGraph',
         text='Theorems reason_true_iff / reason_false / reason_err_never_true / reason_err_or_false / reason_terminates / '
              'addOnly_stop_not_live / reasonAll_eq (+ evaluation log and activation-flag theorems, model_allowed): for every '
              'acyclic graph built by adds only, every start, data vector, data index and assignment of causal functions the '
              'modelled reason_from_to_cause returns Ok(true) iff every reachable causaloid is true on its routed observation, '
              'Ok(false) when none errs and one is false, Err or Ok(false) (first non-true in DFS order) when one errs; it '
-             'terminates; the stop index is never live. The model is compared with the real code on every op (result, '
-             'activation flags of all nodes, order of causal-function calls).',
-        note='Trusted: Lean kernel, the hand-written model Model/CausalGraph.lean (tied to the code only by the correspondence '
-             'run: random DAGs n<=12/40, exhaustive DAGs on <=3/4 nodes x all verdict vectors, malformed stream), petgraph '
-             'index allocation and neighbour order (compared, not proved), harness/driver pair. Nested (non-singleton) nodes '
-             'are C02.',
+             'terminates; the stop index is never live. Tie to the source: Props/C01Gen.lean — get_obs_eq, from_to_loop_eq, '
+             'reason_from_to_cause_eq, reason_all_causes_eq, reason_subgraph_from_cause_eq, single_loop_eq, '
+             'reason_single_cause_eq (every definition generated from get_obs and the default methods of '
+             'CausableGraphReasoning equals the model function the theorems are about, for every graph store, fuel, start/stop, '
+             'data, data index), and c01gen_reason_true_iff / _false / _err_never_true / _terminates / _entry_points / _allowed: '
+             'the headline laws on the generated definitions themselves. The model is also compared with the real code on '
+             'every op (result, activation flags of all nodes, order of causal-function calls).',
+        note='Trusted: Lean kernel, rs2lean_reasoning.py (~1 800 lines + rs2lean_csm.py\'s parser, rsblock.py/rsexpr.py: parser, '
+             'forking symbolic executor with places for `last_mut()` / `next()`, loop derivation, renderer; fail-closed) and the '
+             'vocabulary it writes against (Model/ReasoningPrim.lean + the graph-store part of Model/CausalGraph.lean: '
+             'contains_causaloid / get_causaloid / get_root_index / get_last_index / size / is_empty / outgoing_edges of '
+             'CausaloidGraph over ultragraph, Causaloid::id / is_singleton / verify_single_cause / verify_all_causes — assumed '
+             'meanings, exercised by the correspondence run: random DAGs n<=12/40, exhaustive DAGs on <=3/4 nodes x all verdict '
+             'vectors, malformed stream), petgraph index allocation and neighbour order (compared, not proved), harness/driver '
+             'pair. The reasoning functions of Model/CausalGraph.lean (getObs, loopT, reasonFromTo, reasonAll, reasonSub, '
+             'singleLoop, reasonSingle) are no longer trusted: they are proved equal to the generated definitions. Nested '
+             '(non-singleton) nodes are C02.',
         ref='DESIGN.md §7 C01'),
     'C15': dict(
         technique='Lean 4 proof of a shortest-path oracle (Floyd-Warshall by structural recursion, path checker) + translation '
